@@ -113,7 +113,8 @@ def check_C09(ctx):
     return finish(ctx, rule="every ordered pair of the value universe of MC_C09 (Big=%s) x 9 operators in both operand "
                             "orders, as `if` conditions (bit table validated by TraceC09: decided bits + coherence laws "
                             "on the observed table) and as objects (TraceRender); TLC also checks the coherence laws on "
-                            "the specification's own operators for every pair" % big,
+                            "the specification's own operators for every pair; maps held as ordered maps / Go structs: no failure and "
+                            "a coherent table only" % big,
                   assumptions=TRUSTED)
 
 
@@ -461,11 +462,12 @@ def check_C07(ctx):
                 c["path"] = list(p.encode())
                 c["rawpath"] = True
     validate_by_module(ctx, ctx.run_cases(cases))
-    return finish(ctx, rule="MC_C07: 13 kinds of failing construct x every sequence of <= %d wrappers (if, for, case, capture, "
+    return finish(ctx, rule="MC_C07: 29 kinds of failing construct x every sequence of <= %d wrappers (if, for, case, capture, "
                             "unless) x newlines before/inside (0-2, 0-1) x with/without path x starting line 0/1/5; for "
                             "render-time kinds the render machine reports the static line in its error state; each case is "
                             "parsed with ParseTemplateLocation and rendered, and TraceC07 checks SourceError, LineNumber, Path, "
-                            "Cause presence, message mentions the filter/tag, no output with the error" % d,
+                            "Cause presence and which error it is (the conversion error / the filter's error), message mentions the "
+                            "filter/tag, no output with the error" % d,
                   assumptions=TRUSTED)
 
 
